@@ -260,7 +260,18 @@ def per_path(ctx, po, sh):
                     if k >= len(arms):
                         why = ('arm-missing', 'no arm for variant %s' % v.name); break
                     if e.get('litpat'):
-                        k += 1           # literal / pattern arms: values are decided by C09 (Kani); only their presence and order here
+                        # literal / pattern arms: which values they match is C09's (Kani); here: the arm uses the literal designated for
+                        # this counterpart (dedicated before default) and sits at the variant's position
+                        pat_s, rhs_s = norm(arms[k][0]), norm([t for t in arms[k][1] if t is not None])
+                        lit = norm(tokenize(e['lit']).items) if e['lit'] is not None else None
+                        if is_from:
+                            want = lit if lit is not None else norm(tokenize(e['pat']).items)
+                            if pat_s != want:
+                                why = ('arm', 'literal/pattern arm of variant %s matches `%s`, designated `%s`' % (v.name, pat_s, want)); break
+                        elif lit is not None and e['w'] is None:
+                            if pat_s != '%s::%s' % (src, v.name) or rhs_s != lit:
+                                why = ('arm', 'variant %s converts to `%s`, designated literal `%s`' % (v.name, rhs_s, lit)); break
+                        k += 1
                         continue
                     if e.get('index_rename_vs_struct') or e.get('name_rename_vs_tuple'):
                         k += 1          # rename form does not fit the counterpart variant's form: no designation (user inconsistency)
